@@ -123,6 +123,13 @@ def run(c, chk):
     untitled_does_not_end_search(c, chk, ex)
     unique_titles(c, chk, ex)
     typed_members(c, chk, 'R9.10')
+    # R9.12: "an unknown name fails without effect", "removal by path": the by-name calls address what the resolver finds
+    if not isinstance(chk, report.SubCheck):
+        from . import c11 as _c11
+        chk.rule('R9.12', 'by-name calls address exactly the option named: one resolver, whole-name comparison (rule R11.1 of C11)')
+        sub = report.SubCheck(chk, 'R9.12', 'C11', only=('R11.1',))
+        _c11.run(c, sub)
+        sub.done('name resolution')
     # R9.11: the store answers by the text it is given, not by what an earlier refused call left in errno
     from . import c08 as _c08
     chk.rule('R9.11', 'no decision of the bulk/text setters reads errno unless a value was stored into it first on that path (an earlier refused number does not make the next valid one fail)')
